@@ -140,6 +140,17 @@ def r16_1(cx):
             continue
         ok_alts = False
     guard_ok = False
+    # the iterator-chain spelling: items.iter().position(|item| !is_erased(item)).unwrap_or(usize::MAX)
+    whole = adv.arg(1).strip()
+    if is_call(whole, 'Option::unwrap_or') and whole.args[1].strip().kind == 'const' and whole.args[1].strip().info.get('int') == 2**64 - 1:
+        pi = position_idiom(m.prog, whole.args[0])
+        if pi is not None:
+            it, cl, ret = pi
+            x = m.erased_of(ret.a) if ret.kind == 'unop' and ret.op == 'Not' else None
+            over_items = any(m.is_items(n) for n in it.walk()) and it.has_call('iter') and not any(
+                c.op.rsplit('::', 1)[-1] in ('rev', 'skip', 'step_by', 'take', 'filter', 'skip_while', 'take_while', 'chain') for c in it.calls())
+            if x is not None and x.strip().kind == 'param' and x.strip().info['i'] == 2 and over_items:
+                ok_alts = idx_ok = guard_ok = True
     for pos, st in f.statements():
         if st['k'] == 'assign' and st['rv']['k'] == 'use':
             v = f.rvalue_expr(st['rv']).strip()
